@@ -58,7 +58,7 @@ func (c *Client) handleStatus() error {
 	cmd := c.findPendingCmdFunc(func(cmd command) bool {
 		switch cmd := cmd.(type) {
 		case *StatusCommand:
-			return cmd.mailbox == data.Mailbox
+			return sameMailbox(cmd.mailbox, data.Mailbox)
 		case *ListCommand:
 			return cmd.returnStatus && cmd.pendingData != nil && cmd.pendingData.Mailbox == data.Mailbox
 		default:
@@ -75,6 +75,16 @@ func (c *Client) handleStatus() error {
 	}
 
 	return nil
+}
+
+// sameMailbox reports whether a mailbox name passed to a command and a mailbox
+// name received in a response designate the same mailbox. INBOX is
+// case-insensitive and is always received as "INBOX".
+func sameMailbox(requested, received string) bool {
+	if requested == received {
+		return true
+	}
+	return strings.EqualFold(requested, "INBOX") && strings.EqualFold(received, "INBOX")
 }
 
 // StatusCommand is a STATUS command.
